@@ -553,7 +553,9 @@ class BookOracle(Oracle):
     def match_fill(self, v, real, real_fee, is_buy):
         """None if the real result is the variant v, else (what, detail)"""
         token = self.token
-        if sum((q for _p, q in real), Fraction(0)) != v.q:
+        # displayed sizes are binary floats (and a level already reduced in this status carries float-subtraction noise):
+        # an order that takes whole levels sums to the rounded amount only up to SIZE_TOL per level taken
+        if abs(sum((q for _p, q in real), Fraction(0)) - v.q) > SIZE_TOL * max(1, len(real)):
             return ("fills", {"why": "sum of fills != amount rounded to the contract step", "sum": _s(sum((q for _p, q in real), Fraction(0))), "q": _s(v.q)})
         agg = {}
         for p, q in real:
